@@ -615,8 +615,8 @@ def parse_mir(text):
             skip_next_fn = True
             i += 1
             continue
-        if line.startswith('alloc') and '(size:' in line:
-            m = re.match(r'^(alloc\d+) \(size: (\d+), align: \d+\) \{', line)
+        if line.startswith('alloc') and 'size:' in line and re.match(r'^alloc\d+ \(', line):
+            m = re.match(r'^(alloc\d+) \((?:static: [^,]+, )?size: (\d+), align: \d+\) \{', line)
             name = m.group(1)
             size = int(m.group(2))
             data = bytearray()
